@@ -1156,3 +1156,36 @@ def transition_counter_deltas(ctx, rid):
             ctx.ok(o, "predecessor: end depot of get(len-2); successor: start depot of first()")
         else:
             ctx.undecided(o, "neighbour look-ups not recognised")
+
+
+def tour_formulas(ctx, rid):
+    shape_rule(ctx, "%s.maintenance_counter.formula" % rid, T("maintenance_counter"),
+               ("bin", "Sub", ("call", "in_meter", [("call", "Tour::total_distance", [side(1)])]), ("call", "in_meter", [ANY])),
+               "a maintained tour's counter = total distance - maximal distance between maintenances",
+               "every maintained vehicle looks overdue by twice the allowance: the maintenance violation is wrong")
+    shape_rule(ctx, "%s.total_distance.formula" % rid, T("total_distance"),
+               ("bin", "Add", ("field", None, "service_distance"), ("field", None, "dead_head_distance")),
+               "total distance = service distance + dead-head distance")
+    # the reference times of the two position searches
+    for fn, helper, want, other in (("latest_not_reaching_node", "earliest_arrival_after", "start_time", "end_time"),
+                                    ("latest_not_reached_by_node", "latest_departure_before", "end_time", "start_time")):
+        key = T(fn)
+        if key not in ctx.prog.bodies:
+            continue
+        o, fd = ctx.require_fn("%s.%s.reference-time" % (rid, fn), "T12", key,
+                               "%s searches relative to the %s of the given node" % (fn, want))
+        if fd is None:
+            continue
+        cs = calls_to(fd, T(helper))
+        if not cs:
+            ctx.undecided(o, "the bisection is not called directly")
+            continue
+        ch = direct_chain(fd, cs[0].args[1])
+        names = {x.split("::")[-1] for x in ch}
+        if other in names and want not in names:
+            ctx.bad(o, "%s is asked relative to the node's %s: nodes that overlap the given node are treated as connectable (or connectable ones "
+                    "as conflicting)" % (helper, other), loc=cs[0].line())
+        elif want in names:
+            ctx.ok(o, "%s(%s(node))" % (helper, want))
+        else:
+            ctx.undecided(o, "reference time not recognised")
